@@ -61,11 +61,13 @@ def _decoder_regs(dec):
     if sorted(locks) != ["read", "write"]:
         raise KeyError("AXILiteDecoder: locks %r" % sorted(locks))
     out = {"lock_write": locks["write"].counter, "lock_read": locks["read"].counter}
-    # slave_sel_reg[ch] is the register loaded under  If(locks[ch].ready, slave_sel_reg[ch].eq(slave_sel_dec[ch]))
+    # slave_sel_reg[ch] is the register loaded under  If(locks[ch].ready ..., slave_sel_reg[ch].eq(slave_sel_dec[ch]))
+    def mentions(e, sig):
+        return e is sig or any(mentions(o, sig) for o in getattr(e, "operands", []))
     for st in dec._fragment.sync.get("sys", []):
         cond = getattr(st, "cond", None)
         for ch in ("write", "read"):
-            if cond is locks[ch].ready:
+            if cond is not None and mentions(cond, locks[ch].ready):
                 tgt = [a.l for a in st.t if hasattr(a, "l")]
                 if len(tgt) != 1 or "sel_" + ch in out:
                     raise KeyError("AXILiteDecoder: slave_sel_reg[%s] not identified" % ch)
@@ -224,11 +226,167 @@ def split_event(spec, iv, o):
 
 
 # ------------------------------------------------------------------------------ M-mode sweeps
-def mcfg(kind, n, m, kw=1, kr=1, mfw=None, sfw=None, mfr=None, sfr=None, chkx=0, earlyw=0, xslave=0):
+def mcfg(kind, n, m, kw=1, kr=1, mfw=None, sfw=None, mfr=None, sfr=None, actw=None, actr=None, chkx=0, earlyw=0, xslave=0):
     """one M-mode configuration: both directions in one product.  kw / kr: outstanding requests per master and per
     slave in the write / read direction (0: the direction stays idle); mfw/sfw/mfr/sfr: which masters / slaves have the
-    environment's full freedom in that direction (AxiLiteIcContract: mfree / sfree)"""
+    environment's full freedom in that direction (AxiLiteIcContract: mfree / sfree); actw / actr: which masters issue
+    requests in that direction at all"""
     spec = {"kind": kind, "n": n, "m": m, "dir": "rw", "earlyw": earlyw, "xslave": xslave}
     cw = fam.tla_cfg(dict(spec, dir="w", k=kw, mfree=list(mfw or [0] * n), sfree=list(sfw or [0] * m)))
     cr = fam.tla_cfg(dict(spec, dir="r", k=kr, mfree=list(mfr or [0] * n), sfree=list(sfr or [0] * m)))
-    return {"cw": cw, "cr": cr, "m": model_cfg(spec), "chkx": int(chkx), "spec": spec}
+    return {"cw": cw, "cr": cr, "m": model_cfg(spec), "chkx": int(chkx), "spec": spec,
+            "actw": list(actw or [1] * n), "actr": list(actr or [1] * n)}
+
+
+# ------------------------------------------------------------------------------ recorded runs of the rw netlist
+class _DirEnv:
+    """stimulus generator of one direction: draws, cycle by cycle, moves that MasterMoves / SlaveMoves of
+    AxiLiteIcContract allow for ports with full freedom (mfree = sfree = 1, earlyw = xslave = 0), keeping the same
+    book-keeping from the observed handshakes as the contract's monitor does.  It only PRODUCES stimuli: whether they are
+    legal and what the netlist did with them is judged by TLC (AxiLiteIcModelRwTrace: EnvLegal and the clauses)."""
+    def __init__(self, n, m, k, wr, bases, rnd, pa, pw, pr, psa, psr):
+        self.n, self.m, self.k, self.wr, self.bases, self.rnd = n, m, k, wr, bases, rnd
+        self.p = (pa, pw, pr, psa, psr)
+        self.ah = [0] * n
+        self.wh = [0] * n
+        self.aq = [[] for _ in range(n)]
+        self.nw = [0] * n
+        self.qa = [[] for _ in range(m)]
+        self.qw = [0] * m
+        self.rh = [0] * m
+
+    def draw(self):
+        rnd = self.rnd
+        pa, pw, pr, psa, psr = self.p
+        iv = []
+        for i in range(self.n):
+            can_a = len(self.aq[i]) < self.k
+            can_w = self.wr and self.nw[i] < self.k
+            if self.ah[i]:
+                t = self.ah[i]
+            elif can_a and rnd.random() < pa:
+                t = self.aq[i][0] if self.aq[i] else rnd.randint(1, self.m)
+            else:
+                t = 0
+            if self.wh[i]:
+                w = 1
+            elif can_w and self.nw[i] + 1 <= len(self.aq[i]) + (1 if t else 0):
+                w = int(rnd.random() < pw)
+            else:
+                w = 0
+            iv += [1 if t else 0, t, w, int(rnd.random() < pr)]
+        for j in range(self.m):
+            a = int(len(self.qa[j]) < self.k and rnd.random() < psa)
+            w = int(self.wr and self.qw[j] < self.k and rnd.random() < psa)
+            r = 1 if self.rh[j] else int(rnd.random() < psr)
+            iv += [a, w, r]
+        return iv
+
+    def observe(self, iv, o):
+        n, m = self.n, self.m
+        mv = [iv[4 * i:4 * i + 4] for i in range(n)]
+        sv = [iv[4 * n + 3 * j:4 * n + 3 * j + 3] for j in range(m)]
+        mo = [o[4 * i:4 * i + 4] for i in range(n)]
+        so = [o[4 * n + 5 * j:4 * n + 5 * j + 5] for j in range(m)]
+        m_afire = [mv[i][0] == 1 and mo[i][0] == 1 for i in range(n)]
+        m_wfire = [mv[i][2] == 1 and mo[i][1] == 1 for i in range(n)]
+        m_rfire = [mo[i][2] == 1 and mv[i][3] == 1 for i in range(n)]
+        owed = [len(self.qa[j]) >= 1 and (not self.wr or self.qw[j] >= 1) for j in range(m)]
+        s_rvalid = [sv[j][2] == 1 and (owed[j] or self.rh[j] == 1) for j in range(m)]
+        s_afire = [so[j][0] == 1 and sv[j][0] == 1 for j in range(m)]
+        s_wfire = [so[j][2] == 1 and sv[j][1] == 1 for j in range(m)]
+        s_rfire = [s_rvalid[j] and so[j][4] == 1 for j in range(m)]
+        for i in range(n):
+            if m_rfire[i] and self.aq[i]:
+                self.aq[i].pop(0)
+            if m_afire[i]:
+                self.aq[i].append(mv[i][1])
+            self.nw[i] += int(m_wfire[i]) - int(m_rfire[i] and self.nw[i] > 0)
+            self.ah[i] = mv[i][1] if mv[i][0] == 1 and not m_afire[i] else 0
+            self.wh[i] = 1 if mv[i][2] == 1 and not m_wfire[i] else 0
+        for j in range(m):
+            ms = [i for i in range(n) if mv[i][0] == 1 and mv[i][1] == j + 1 and so[j][1] == self.bases[j] + 4 * (i + 1)]
+            if s_rfire[j] and self.qa[j]:
+                self.qa[j].pop(0)
+            if s_afire[j] and ms:
+                self.qa[j].append(ms[0])
+            self.qw[j] += int(s_wfire[j]) - int(s_rfire[j] and self.qw[j] > 0)
+            self.rh[j] = 1 if s_rvalid[j] and not s_rfire[j] else 0
+
+
+def rw_run(spec, k, ncycles, rnd, profile):
+    """cycle-by-cycle run of the real rw netlist on the reference evaluator (no state loading) under concurrent write
+    and read traffic -> (reset projection, cases [[r, iv, o, r2], ...]) for the conformance judge; ev = [c[1], c[2]]"""
+    from ..fhdl_step import Stepper
+    from .. import l2
+    dut, ins, outs = make_rw(spec)
+    st = Stepper(dut, ins, outs, engine="ref")
+    ix = l2.proj_index(st, LANE.proj_path, spec)
+    st.load(st.reset_state, tuple(0 for _ in ins))
+    reset = l2.project(ix, st.state())
+    bases = [org for org, _ in fam._regions(spec)]
+    ew = _DirEnv(spec["n"], spec["m"], k, True, bases, rnd, *profile)
+    er = _DirEnv(spec["n"], spec["m"], k, False, bases, rnd, *profile)
+    cases = []
+    for _ in range(ncycles):
+        ivw, ivr = ew.draw(), er.draw()
+        iv = ivw + ivr
+        pre = l2.project(ix, st.state())
+        st.load(st.state(), tuple(iv))
+        o = [int(x) for x in st.peek()]
+        st.tick()
+        (_, ow), (_, orr) = split_event(spec, iv, o)
+        ew.observe(ivw, ow)
+        er.observe(ivr, orr)
+        cases.append([pre, iv, o, l2.project(ix, st.state())])
+    return reset, cases
+
+
+def rw_tcfg(spec, k, stallbound=64, earlyw=0, xslave=0):
+    """contract configurations of the two directions for judging a run of the rw netlist (every port free)"""
+    n, m = spec["n"], spec["m"]
+    base = dict(spec, k=k, mfree=[1] * n, sfree=[1] * m, earlyw=earlyw, xslave=xslave)
+    return {"cw": fam.tla_cfg(dict(base, dir="w")), "cr": fam.tla_cfg(dict(base, dir="r")), "stallbound": stallbound}
+
+
+def mmode_configs(tier):
+    """the M-mode sweep.  Both directions are in every product; the cost of a product is (transitions of the write
+    side) x (transitions of the read side), so each configuration gives one direction the traffic under study and the
+    other a small environment (or keeps it idle, k = 0).  Measured sizes in the comments (distinct states / transitions).
+    Every configuration stays inside the environment flags earlyw = 0, xslave = 0 (listed findings of C08)."""
+    L = []
+
+    def add(*a, **kw):
+        witness = kw.pop("witness", False)
+        x = mcfg(*a, **kw)
+        x["witness"] = witness
+        L.append(x)
+    # write of master 1 stalled by its slave while master 2 reads (and the read side stalls too): 261 / 19 k
+    add("shared", 2, 2, kw=1, kr=1, actw=[1, 0], sfw=[1, 0], actr=[0, 1], sfr=[0, 1], chkx=1, witness=True)
+    # 3 x 3, both directions: two masters write through the arbiter while the third reads: 669 / 9 k
+    add("shared", 3, 3, kw=3, kr=1, actw=[1, 1, 0], actr=[0, 0, 1])
+    # one direction at 3 x 3 with 3 outstanding (the other idle)
+    add("shared", 3, 3, kw=3, kr=0)                                            # 475 / 4.2 k
+    add("crossbar", 3, 3, kw=0, kr=3, actr=[1, 1, 0])                          # 305 / 2.0 k
+    add("decoder", 1, 3, kw=3, kr=0, mfw=[1], sfw=[1, 0, 0])                   # 229 / 8.1 k
+    if tier == "thorough":
+        # 3 x 3, both directions, up to 3 writes of master 1 outstanding at a slave that may delay addresses, data and
+        # responses for ever, while master 3 reads: 448 / 16 k
+        add("shared", 3, 3, kw=3, kr=1, actw=[1, 0, 0], sfw=[1, 0, 0], actr=[0, 0, 1])
+        add("arbiter", 3, 1, kw=0, kr=3, mfr=[1, 0, 0], sfr=[1])               # 364 / 9.4 k
+        # both directions
+        add("shared", 3, 3, kw=3, kr=1, actw=[1, 1, 0], actr=[0, 0, 1], sfr=[0, 0, 1])             # 1333 / 58 k
+        add("shared", 3, 3, kw=1, kr=3, actw=[0, 0, 1], sfw=[0, 0, 1], actr=[1, 1, 0])
+        add("crossbar", 3, 3, kw=3, kr=1, actw=[1, 0, 0], sfw=[1, 0, 0], actr=[0, 0, 1])           # 1789 / 65 k
+        add("crossbar", 2, 2, kw=2, kr=1, actr=[0, 1], sfr=[0, 1], chkx=1)                         # 2249 / 74 k
+        add("decoder", 1, 3, kw=3, kr=1, mfw=[1], sfr=[0, 0, 1], chkx=1)
+        add("p2p", 1, 1, kw=3, kr=2, mfw=[1], sfw=[1], sfr=[1], chkx=1)
+        # one direction
+        add("shared", 3, 3, kw=3, kr=0, sfw=[1, 0, 0])                         # 2629 / 109 k
+        add("shared", 3, 3, kw=0, kr=3, sfr=[0, 1, 0])
+        add("crossbar", 3, 3, kw=3, kr=0)                                      # 2815 / 40 k
+        add("crossbar", 3, 3, kw=0, kr=3)                                      # 2815 / 40 k
+        add("crossbar", 3, 3, kw=2, kr=0, mfw=[1, 0, 0], actw=[1, 1, 0])       # 1437 / 20 k
+        add("crossbar", 3, 3, kw=3, kr=0, sfw=[1, 0, 0], actw=[1, 1, 0])       # 1817 / 55 k
+        add("arbiter", 3, 1, kw=3, kr=0, mfw=[0, 1, 0], sfw=[1])
+    return L
